@@ -124,9 +124,23 @@ fn gen_hint(r: &mut Rng, formats: &[String]) -> String {
 }
 
 fn report_of(format: &str, data: &[u8]) -> String {
+    report_of_mode(format, data, false)
+}
+
+/// Same read through the async entry point (`with_stream_async`), driven by a current-thread runtime.
+fn report_of_async(format: &str, data: &[u8]) -> String {
+    report_of_mode(format, data, true)
+}
+
+fn report_of_mode(format: &str, data: &[u8], use_async: bool) -> String {
     let res = guarded(|| {
         let ctx = Context::new();
-        Reader::from_context(ctx).with_stream(format, Cursor::new(data.to_vec()))
+        if use_async {
+            let rt = tokio::runtime::Builder::new_current_thread().enable_all().build().expect("runtime");
+            rt.block_on(Reader::from_context(ctx).with_stream_async(format, Cursor::new(data.to_vec())))
+        } else {
+            Reader::from_context(ctx).with_stream(format, Cursor::new(data.to_vec()))
+        }
     });
     match res {
         Err(p) => format!("panic:{p}"),
@@ -262,6 +276,17 @@ pub fn run(run: &mut Run, rng: &mut Rng) {
                 run.fail(idx, "report-depends-on-hint", format!("fixture {name} (container {detected}) hint {h:?}: {} vs baseline {}", &rep[..rep.len().min(160)], &baseline[..baseline.len().min(160)]));
             } else {
                 run.nontrivial(format!("e2e {name} {h}"));
+            }
+            // the async entry point must reconcile the hint in the same way
+            let rep_a = report_of_async(&h, &data);
+            e2e += 1;
+            let same_a = rep_a == baseline;
+            run.count(if same_a { "e2e_async_same" } else { "e2e_async_diff" });
+            if !same_a {
+                let idx = run.reqs.len().saturating_sub(1);
+                run.fail(idx, "report-depends-on-hint", format!("fixture {name} (container {detected}) hint {h:?} through with_stream_async: {} vs baseline {}", &rep_a[..rep_a.len().min(160)], &baseline[..baseline.len().min(160)]));
+            } else {
+                run.nontrivial(format!("e2e-async {name} {h}"));
             }
         }
     }
